@@ -596,8 +596,8 @@ Proof.
   rewrite Hsl.
   (* the key slot *)
   assert (Hi0 : 0 <= s_idx s) by lia.
-  assert (Hkey : slice (guardians_of K) (Z.to_nat (1 + s_idx s * 20)) (Z.to_nat (1 + s_idx s * 20 + 20)) = Some a).
-  { unfold guardians_of. replace (Z.to_nat (1 + s_idx s * 20)) with (length (be 1 (Z.of_nat (length K))) + 20 * Z.to_nat (s_idx s))%nat by (rewrite be_length; lia).
+  assert (Hkey : slice (guardians_of K) (Z.to_nat (fst (ral_key_slot (s_idx s)))) (Z.to_nat (snd (ral_key_slot (s_idx s)))) = Some a).
+  { unfold guardians_of, ral_key_slot. cbn [fst snd]. replace (Z.to_nat (1 + s_idx s * 20)) with (length (be 1 (Z.of_nat (length K))) + 20 * Z.to_nat (s_idx s))%nat by (rewrite be_length; lia).
     replace (Z.to_nat (1 + s_idx s * 20 + 20)) with (length (be 1 (Z.of_nat (length K))) + 20 * Z.to_nat (s_idx s) + 20)%nat by (rewrite be_length; lia).
     apply concat_nth_slice; assumption. }
   rewrite Hkey.
